@@ -9,7 +9,8 @@ os.environ.setdefault("PYTHONHASHSEED", "0")
 import common
 
 ENGINE = {"C01": "eng_eval", "C02": "eng_eval", "C14": "eng_eval", "C17": "eng_eval",
-          "C03": "eng_diff", "C04": "eng_diff", "C07": "eng_diff"}
+          "C03": "eng_diff", "C04": "eng_diff", "C07": "eng_diff",
+          "C08": "eng_reduce", "C11": "eng_reduce"}
 
 
 def main(argv):
